@@ -4,7 +4,7 @@
 class Contract:
     def __init__(self, qual, params=None, returns=None, requires=None, ensures=None, raises=None,
                  noraise=False, modifies=None, invariants=None, inline=False, virtual=False, trusted=False,
-                 aux=None, loop_mod=None, decreases=None, cinv=None, pure=False, note="", props=(), assumes=None, defs=None, base=None, defines_ensures=None, defines_raises=None):
+                 aux=None, loop_mod=None, decreases=None, cinv=None, pure=False, note="", props=(), assumes=None, defs=None, base=None, defines_ensures=None, defines_raises=None, abstract=False):
         self.qual = qual
         self.params = params or {}          # name -> type tag (a precondition and a hint)
         self.returns = returns              # type tag of the result (assumed at call sites, proved in body)
@@ -27,6 +27,7 @@ class Contract:
         self.defs = defs or {}         # local definitions of spec functions: name -> (params, expr), used only when verifying this body
         self.defines_ensures = defines_ensures or {}   # definitional clauses: the outcome of this function DEFINES an
         self.defines_raises = defines_raises or {}     # uninterpreted outcome predicate; assumed by callers, nothing to prove
+        self.abstract = abstract       # virtual contract of a method whose base body only raises NotImplementedError
         self.base = base               # virtual contract this one refines
         self.assumes = assumes or {}   # stated assumptions: assumed on entry, NOT checked at call sites (listed in evidence)
 
